@@ -8,10 +8,13 @@ Command loops of `drv_c01` (core Lean only):
   drv_c01 x86exec   `<op|uop|cell|tobool spec> | rax rdi rcx rdx` (decimal, unsigned 64-bit)
                                                                              → `ok rax rdi rcx rdx zf sf cf of pf valid` | `fault` | `undecodable`
   drv_c01 ctype     `<t1> <t2>`                                            → result of Gen.getCommonType as (kind,size,unsigned)
+  drv_c01 compile   `<t0,t1,..> <off0,off1,..> | <prefix expression>`      → `ok <type> <stack slots> <ins;;ins;;…>` | `none`
+                    (Model/C01Expr `compileE`: the code of a whole side-effect-free expression tree, variable i at offi(%rbp))
 -/
 import ChibiVerif.Spec.IntSpec
 import ChibiVerif.Model.X86
 import ChibiVerif.Model.C01Codegen
+import ChibiVerif.Model.C01Expr
 
 namespace ChibiVerif.Driver.C01
 open ChibiVerif.Spec.IntSpec ChibiVerif.Gen.CommonType ChibiVerif.C01Codegen ChibiVerif.Asm
@@ -191,6 +194,28 @@ def ctypeLine (line : String) : String :=
     | .ptrTo t => s!"ptr-to {kindName t.kind}"
   | _ => "bad"
 
+/-- `compileE` on a whole expression tree; variable `i` lives at `offs[i](%rbp)` -/
+def compileLine (line : String) : String :=
+  match line.splitOn "|" with
+  | [hd, ex] =>
+    match words hd with
+    | [ts, os] =>
+      let tys := (csv ts).map ITy.ofString?
+      let offs := (csv os).map String.toInt?
+      if tys.any Option.isNone || offs.any Option.isNone || tys.length ≠ offs.length then "bad env" else
+      let tl := tys.filterMap id
+      let ol := offs.filterMap id
+      let toks := words ex
+      match parseE (toks.length + 1) toks with
+      | some (e, []) =>
+        match ChibiVerif.C01.compileE tl (fun i => ol.getD i 0) e with
+        | some (t, code) =>
+            s!"ok {t.toString} {ChibiVerif.C01.depthE e} " ++ (if code.isEmpty then "empty" else ";;".intercalate (code.map Ins.render))
+        | none => "none"
+      | _ => "bad expr"
+    | _ => "bad env"
+  | _ => "bad line"
+
 partial def loop (h : IO.FS.Stream) (f : String → String) : IO UInt32 := do
   let line ← h.getLine
   if line.isEmpty then return 0
@@ -205,8 +230,9 @@ def main (args : List String) : IO UInt32 := do
   | "seq" :: _ => loop stdin seqLine
   | "x86exec" :: _ => loop stdin x86Line
   | "ctype" :: _ => loop stdin ctypeLine
+  | "compile" :: _ => loop stdin compileLine
   | _ =>
-    IO.eprintln "usage: drv_c01 eval|seq|x86exec|ctype"
+    IO.eprintln "usage: drv_c01 eval|seq|x86exec|ctype|compile"
     return 2
 
 end ChibiVerif.Driver.C01
